@@ -70,9 +70,9 @@ partial def loop (h out : IO.FS.Stream) : IO Unit := do
   | "expr" :: alnum :: toks =>
     match parseE toks with
     | some (e, []) =>
-      let text := Print.render Digits.sizeInBaseF e
       let extra : List Char := if alnum == "-" then [] else (alnum.splitOn ",").map fun h => Char.ofNat (h.toList.foldl (fun a c => a * 16 + hexVal c) 0)
       let cc : Lex.CharClass := { Lex.asciiClass with isAlnum := fun c => if c.toNat < 128 then c.isAlphanum else extra.contains c }
+      let text := Print.render Digits.sizeInBaseF cc e
       let ts := Lex.lex cc text.toList
       let (e', rest) := Parse.parseEq (Parse.parseFuel ts) ts
       let full := Parse.peek rest == .eof
